@@ -10,6 +10,7 @@ import VsgProofs.Lemmas.BaseLineStruct
 import VsgProofs.Lemmas.BaseWsEffects
 import VsgProofs.Lemmas.BaseBindEffects
 import VsgProofs.Lemmas.PostPhase1
+import VsgProofs.Lemmas.BaseCaseTok
 namespace Vsgm.C01
 open Vsgm Vsgm.Verdict
 
@@ -416,5 +417,37 @@ example :
   intro l c b n w; exact ⟨rfl, by decide, by decide⟩
 
 end LineStruct
+
+/-! ### BEGIN ag_bcase (case family, B-full) -/
+/-! ### layer B, the case family: analysis + fix keep the code sequence -/
+
+/-- `token_case` (243 rules): for every parameter setting and every region, the action the analysis
+    produces makes a fix that keeps the folded code sequence (hypotheses as in C03.bfull_case_caseOnly:
+    character tables; the analysed token is a code token and not an extended identifier) -/
+theorem bfull_case_codeSeq {E : Base.Case.Env} {lc uc fc : Char → Char}
+    (T : Base.Case.CharWise E fold lc uc fc) (owner : String) (ho : owner ∈ Base.caseTokenOwners)
+    (params : Base.KV) (p : Base.Case.Params) (old new : List Tok) (a : Base.Case.Action)
+    (hok : ∀ t, old[0]? = some t → Base.Case.TokOk p t)
+    (ha : Base.Case.TokenCase.analyzeToi E p old = .ok (some a))
+    (hf : Base.fixByOwner owner params (Base.caseActionKV a) old = some (.ok new)) :
+    codeSeq fold new = codeSeq fold old := by
+  rw [Base.fixByOwner_tokenCase owner ho] at hf
+  simp only [Option.some.injEq] at hf
+  exact ((Base.Case.TokenCase.analyze_fix_caseOnly T p old new a hok ha hf).codeSeq fold).symm
+
+/-- formal parts of port / generic maps (2 rules), partial: no duplicate-by-case `case_exceptions` -/
+theorem bfull_case_formal_codeSeq_partial {E : Base.Case.Env} {lc uc fc : Char → Char}
+    (T : Base.Case.CharWise E fold lc uc fc) (owner : String) (ho : owner ∈ Base.caseFormalOwners)
+    (params : Base.KV) (c : Base.Case.FormalPart.Classes) (p : Base.Case.Params) (old new : List Tok)
+    (acts : List Base.Case.Action) (a : Base.Case.Action) (hnd : Base.Case.NoCaseDup E p.exceptions)
+    (hok : ∀ t ∈ old, t.cls = c.formal → Base.Case.TokOk p t)
+    (ha : Base.Case.FormalPart.analyzeToi E c p old = .ok acts) (hm : a ∈ acts)
+    (hf : Base.fixByOwner owner params (Base.caseActionKV a) old = some (.ok new)) :
+    codeSeq fold new = codeSeq fold old := by
+  rw [Base.fixByOwner_formal owner ho] at hf
+  simp only [Option.some.injEq] at hf
+  exact ((Base.Case.FormalPart.analyze_fix_caseOnly_partial T c p old new acts a hnd hok ha hm hf).codeSeq fold).symm
+
+/-! ### END ag_bcase -/
 
 end Vsgm.C01
